@@ -196,10 +196,118 @@ def default_params(rng, ds, variant):
     return p
 
 
+# ----------------------------------------------------------------------------- id sequences
+# "a sequence of objects / indices however supplied": the embedded sequence need not be 0..N-1.  Every request of this
+# stream embeds a sequence of sample ids with REPEATED ids (a sample listed twice to weight it, a bootstrap resample),
+# sorted and unsorted, of full length (as many entries as the tables have rows) and shorter / longer, keeping or not
+# keeping the end points 0 and N-1.  What the sequence denotes is fixed by the callbacks' values alone; the reference is
+# the feature matrix whose columns are the denoted samples (and, for value tables, hand-written table callbacks).
+IDSEQ_FLAVOURS = ["sorted_full_ends_rep", "unsorted_full_rep", "sorted_full_noends_rep", "short_sorted_ends_rep",
+                  "short_unsorted_rep", "long_rep", "short_sorted_norep", "reversed"]
+
+
+def gen_idseq(rng, n, flavour):
+    def repeat_some(s, lo, hi, times):
+        """overwrite `times` positions in [lo, hi) by the value at another position of [lo, hi)"""
+        for _ in range(times):
+            a, b = rng.sample(range(lo, hi), 2)
+            s[a] = s[b]
+        return s
+    times = rng.choice([1, 1, 2, 3])
+    if flavour == "sorted_full_ends_rep":
+        s = sorted(repeat_some(list(range(n)), 1, n - 1, times))
+    elif flavour == "sorted_full_noends_rep":
+        s = list(range(n))
+        s[0], s[n - 1] = rng.randrange(1, n - 1), rng.randrange(1, n - 1)
+        s.sort()
+    elif flavour == "unsorted_full_rep":
+        s = list(range(n))
+        rng.shuffle(s)
+        if rng.random() < 0.5:      # keeps the end points in place
+            s.remove(0), s.remove(n - 1)
+            s = [0] + s + [n - 1]
+            s = repeat_some(s, 1, n - 1, times)
+        else:
+            s = repeat_some(s, 0, n, times)
+    elif flavour == "short_sorted_ends_rep":
+        m = n - rng.randint(2, 4)
+        s = sorted([0, n - 1] + repeat_some(rng.sample(range(1, n - 1), m - 2), 0, m - 2, times))
+    elif flavour == "short_unsorted_rep":
+        m = n - rng.randint(1, 4)
+        s = repeat_some(rng.sample(range(n), m), 0, m, times)
+    elif flavour == "short_sorted_norep":
+        m = n - rng.randint(1, 4)
+        s = sorted(rng.sample(range(n), m))
+    elif flavour == "long_rep":
+        s = list(range(n)) + [rng.randrange(n) for _ in range(rng.randint(1, 3))]
+        if rng.random() < 0.5:
+            s.sort()
+    else:       # reversed
+        s = list(range(n - 1, -1, -1))
+    return s
+
+
+def idseq_cases(method, needs, ds, params, backs, src, j, seqs):
+    """the call forms of the id-sequence stream for one method: EVERY way of supplying the data, in particular tapkee's
+    own callback classes attached directly (family P: a method may special-case them by TYPE) and non-contiguous
+    containers, against the feature-matrix form of the denoted sequence / the hand-written table callbacks"""
+    out = []
+    conts = ["vec", "deque", "stride"]
+    exact = ds["kind"] in EXACT_KINDS
+    for t, (flavour, ids) in enumerate(seqs):
+        kw = {"ids": ids, "seq": flavour}
+        r = j + t
+        if exact:
+            out.append(make_case(method, "M", "", "range", "eigen", src, params, **kw))
+            out.append(make_case(method, "E", FULL_ORDERS[r % 6], "range", "eigen", src, params, **kw))
+            out.append(make_case(method, "P", FULL_ORDERS[(r + 1) % 6], ["range", "using"][r % 2], "pre", src, params,
+                                 cont=conts[r % 3], **kw))
+            out.append(make_case(method, "U", FULL_ORDERS[(r + 2) % 6], ["using", "range"][r % 2], backs[r % len(backs)],
+                                 src, params, **kw))
+            out.append(make_case(method, "U", FULL_ORDERS[(r + 3) % 6], ["range", "using"][r % 2],
+                                 backs[(r + 1) % len(backs)], src, params, cont=conts[1 + r % 2], **kw))
+            out.append(make_case(method, "O", FULL_ORDERS[(r + 4) % 6], ["using", "range"][r % 2],
+                                 backs[(r + 2) % len(backs)], src, params, **kw))
+            exact_orders = [o for o in PARTIAL_ORDERS + FULL_ORDERS if set(o) == set(needs)]
+            if exact_orders and len(exact_orders[0]) < 3:
+                out.append(make_case(method, "U", exact_orders[r % len(exact_orders)], ["range", "using"][r % 2],
+                                     backs[r % len(backs)], src, params, **kw))
+        if "ktab" in ds:
+            out.append(make_case(method, "U", "KDF", "range", "tab", src, params, **kw))
+            out.append(make_case(method, "P", FULL_ORDERS[(r + 2) % 6], ["using", "range"][r % 2], "pretab", src, params,
+                                 cont=conts[(r + 1) % 3], **kw))
+            out.append(make_case(method, "U", FULL_ORDERS[(r + 5) % 6], ["range", "using"][r % 2], "pretab", src, params,
+                                 cont=conts[(r + 2) % 3], **kw))
+            out.append(make_case(method, "O", FULL_ORDERS[(r + 3) % 6], "using", ["tab", "pretab"][r % 2], src, params, **kw))
+    return out
+
+
+def container_cases(method, ds, params, backs, src, j):
+    """the usual sequence 0..N-1 (shifted / permuted for family U) in containers that are random-access but NOT
+    contiguous, and tapkee's own precomputed / eigen-features classes attached directly (family P)"""
+    out = [make_case(method, "U", FULL_ORDERS[(j + 1) % 6], ["range", "using"][j % 2], backs[j % len(backs)], src, params,
+                     cont="deque"),
+           make_case(method, "U", FULL_ORDERS[(j + 4) % 6], ["using", "range"][j % 2], backs[(j + 1) % len(backs)], src,
+                     params, cont="stride"),
+           make_case(method, "P", FULL_ORDERS[(j + 2) % 6], ["range", "using"][j % 2], "pre", src, params,
+                     cont=["vec", "deque", "stride"][j % 3])]
+    return out
+
+
 # ----------------------------------------------------------------------------- cases
-def make_case(method, fam, order, entry, back, src, params):
+def make_case(method, fam, order, entry, back, src, params, ids=None, cont=None, seq=None):
+    """ids: the DENOTED SEQUENCE (which samples of the data set are embedded, in which order, repeats allowed; None =
+    0..N-1); cont: the container kind of the sequence handed to tapkee (families U with a full order, P)"""
     c = dict(params)
+    for k in ("ids", "cont", "seq"):
+        c.pop(k, None)
     c.update({"m": method, "fam": fam, "order": order, "entry": entry, "back": back, "src": src})
+    if ids is not None:
+        c["ids"] = ids if isinstance(ids, str) else ",".join(str(i) for i in ids)
+        if seq:
+            c["seq"] = seq
+    if cont and cont != "vec" and fam in ("U", "P"):
+        c["cont"] = cont
     # index sequences handed to hand-written callbacks are shifted (element i is the integer i + off): an integer
     # data object is then not its own position either
     c["off"] = params.get("off", 0) if fam in ("U", "Y") else 0
@@ -210,11 +318,11 @@ def make_case(method, fam, order, entry, back, src, params):
 
 def run_line(i, c):
     keys = ["m", "fam", "back", "src", "order", "entry", "off", "d", "k", "seed", "nm", "em", "wd", "perp", "theta", "maxit",
-            "lr", "width", "ts", "speg", "spen", "sq", "perm", "min"]
+            "lr", "width", "ts", "speg", "spen", "sq", "perm", "min", "cont", "ids"]
     return "RUN id=%d " % i + " ".join("%s=%s" % (k, c[k]) for k in keys if k in c and c[k] != "") + "\n"
 
 
-def cases_for(method, needs, ds, params, tier, rng, reduced=False):
+def cases_for(method, needs, ds, params, tier, rng, reduced=False, seqs=()):
     """the call forms run for one (data set, method).  needs: string over KDF (the method's own flags).
     reduced: the reference, the chains that attach exactly the declared callbacks, tapkee::embed directly, one chain
     over objects, and the value-table stream (used for the extra data set aimed at one code path)."""
@@ -238,8 +346,10 @@ def cases_for(method, needs, ds, params, tier, rng, reduced=False):
             out.append(make_case(method, "U", FULL_ORDERS[(j + i) % 6], ["using", "range"][i % 2], b, src, params))
         out.append(make_case(method, "Y", "KDF", "range", backs[j % len(backs)], src, params))
         out.append(make_case(method, "O", FULL_ORDERS[j], "using", backs[(j + 1) % len(backs)], src, params))
+        out += container_cases(method, ds, params, backs, src, j)
         if "ktab" in ds:
             out += table_cases(method, needs, src, params, False, j)
+        out += idseq_cases(method, needs, ds, params, backs, src, j, seqs)
         return out
     for o in FULL_ORDERS:
         out.append(make_case(method, "E", o, "range", "eigen", src, params))
@@ -265,8 +375,10 @@ def cases_for(method, needs, ds, params, tier, rng, reduced=False):
         for e, entry in enumerate(["range", "using"]):
             if thorough or (e + j + len(o)) % 2 == 0:
                 out.append(make_case(method, "U", o, entry, backs[(e + j) % len(backs)], src, params))
+    out += container_cases(method, ds, params, backs, src, j)
     if "ktab" in ds:
         out += table_cases(method, needs, src, params, thorough, j)
+    out += idseq_cases(method, needs, ds, params, backs, src, j, seqs)
     return out
 
 
@@ -278,6 +390,7 @@ def table_reference(c):
     """the hand-written callbacks that look the pair up in the value tables, all three attached, embedRange"""
     r = dict(c)
     r.update({"fam": "U", "order": "KDF", "entry": "range", "back": "tab"})
+    r.pop("cont", None)
     return r
 
 
@@ -301,6 +414,9 @@ def table_cases(method, needs, src, params, thorough, j):
     out.append(make_case(method, "Y", "KDF", "range", "pretab", src, params))
     out.append(make_case(method, "O", FULL_ORDERS[(j + 1) % 6], "using", "pretab", src, params))
     out.append(make_case(method, "O", FULL_ORDERS[(j + 4) % 6], "range", "tab", src, params))
+    # tapkee's own precomputed classes attached directly (not wrapped), in a container kind that varies
+    out.append(make_case(method, "P", FULL_ORDERS[(j + 5) % 6], ["range", "using"][j % 2], "pretab", src, params,
+                         cont=["stride", "vec", "deque"][j % 3]))
     return out
 
 
@@ -618,20 +734,23 @@ def reference_for(c):
     if is_table_case(c):
         return table_reference(c)
     return make_case(c["m"], "M", "", "range", "eigen", c.get("src", "eigen"),
-                     {k: v for k, v in c.items() if k not in ("m", "fam", "order", "entry", "back", "src")})
+                     {k: v for k, v in c.items() if k not in ("m", "fam", "order", "entry", "back", "src")},
+                     ids=c.get("ids"), seq=c.get("seq"))
 
 
 def judge(ctx, ds, cases, results, needs, model, stats):
     """spec on the implementation's own outputs + model/implementation agreement"""
     ref = {}
     refidx = set()
+    # one reference per (method, denoted sequence): the matrix form / the hand-written table callbacks over a vector
     for idx, (c, r) in enumerate(zip(cases, results)):
-        if c["fam"] == "M" and (c["m"], "mat") not in ref:
-            ref[(c["m"], "mat")] = r
+        ids = c.get("ids", "")
+        if c["fam"] == "M" and (c["m"], "mat", ids) not in ref:
+            ref[(c["m"], "mat", ids)] = r
             refidx.add(idx)
-        elif is_table_case(c) and (c["m"], "tab") not in ref and \
+        elif is_table_case(c) and (c["m"], "tab", ids) not in ref and "cont" not in c and \
                 (c["fam"], c["order"], c["entry"], c["back"]) == ("U", "KDF", "range", "tab"):
-            ref[(c["m"], "tab")] = r
+            ref[(c["m"], "tab", ids)] = r
             refidx.add(idx)
     # is the REFERENCE the odd one out?  (all the other call forms that supply the declared callbacks agree with each
     # other bit for bit and none of them agrees with the matrix form: then it is the matrix form that embeds something else)
@@ -639,18 +758,19 @@ def judge(ctx, ds, cases, results, needs, model, stats):
     for c, r in zip(cases, results):
         if c["fam"] != "M" and not is_table_case(c) and r["kind"] in ("OK", "EXC") and needs.get(c["m"]) is not None and \
                 set(needs[c["m"]]) <= (set(KINDS) if c["fam"] in ("E", "X", "Y") else set(c["order"])):
-            others.setdefault(c["m"], []).append(r)
+            others.setdefault((c["m"], c.get("ids", "")), []).append(r)
     odd_ref = {}
-    for m, rs in others.items():
-        rf = ref.get((m, "mat"))
+    for (m, ids), rs in others.items():
+        rf = ref.get((m, "mat", ids))
         if rf is not None and rf["kind"] in ("OK", "EXC") and len(rs) >= 2 and \
                 all(same_result(x, rs[0]) for x in rs[1:]) and not same_result(rs[0], rf):
-            odd_ref[m] = len(rs)
+            odd_ref[(m, ids)] = len(rs)
     for idx, (c, r) in enumerate(zip(cases, results)):
         m = c["m"]
         nd = needs.get(m)
         tab = is_table_case(c)
-        rf = ref.get((m, "tab" if tab else "mat"))
+        ids = c.get("ids", "")
+        rf = ref.get((m, "tab" if tab else "mat", ids))
         if rf is None or nd is None:
             continue
         refname = ("the hand-written callbacks returning the same table values" if tab else "the matrix form")
@@ -659,6 +779,11 @@ def judge(ctx, ds, cases, results, needs, model, stats):
         enough = set(nd) <= supplied
         stats["outcomes"][r["kind"]] = stats["outcomes"].get(r["kind"], 0) + 1
         tag = "%s/%s/%s/%s/%s%s" % (c["fam"], c["order"] or "-", c["entry"], c["back"], ds["kind"], shape_of(ds))
+        if "cont" in c:
+            tag += "/cont=" + c["cont"]
+        if ids:
+            tag += "/ids=" + c.get("seq", "given")
+        nrows = len(ids.split(",")) if ids else ds["N"]
         if r["kind"] == "SKIPPED" or rf["kind"] == "SKIPPED":
             continue
         if r["kind"] in ("NOTBUILT", "BADCASE"):
@@ -674,10 +799,10 @@ def judge(ctx, ds, cases, results, needs, model, stats):
                 elif r["kind"] == "OK" and rf["kind"] == "OK":
                     why = ("%s: call form %s gives a different embedding than %s on the same data, "
                            "parameters and random stream: %s" % (m, tag, refname, first_diff(r, rf)))
-                    if not tab and m in odd_ref:
+                    if not tab and (m, ids) in odd_ref:
                         why += ("  [the MATRIX form is the odd one out: all %d other call forms of this request agree with "
-                                "each other bit for bit]" % odd_ref[m])
-                    if not tab and rf["rows"] != ds["N"] and r["rows"] == ds["N"]:
+                                "each other bit for bit]" % odd_ref[(m, ids)])
+                    if not tab and not ids and rf["rows"] != ds["N"] and r["rows"] == ds["N"]:
                         why += ("  [with(p).embedUsing(matrix) returned %d rows for a feature matrix of %d features x %d "
                                 "samples (one column per sample): the matrix form did not embed the samples]"
                                 % (rf["rows"], ds["D"], ds["N"]))
@@ -688,11 +813,23 @@ def judge(ctx, ds, cases, results, needs, model, stats):
                     why = "%s: call form %s ends differently from %s: %s vs %s" % (
                         m, tag, refname, {k: v for k, v in r.items() if k not in ("hex", "counts")},
                         {k: v for k, v in rf.items() if k not in ("hex", "counts")})
+                if ids:
+                    why += ("  [the request embeds the sequence of samples ids=[%s] of the data set (%d entries, tables / "
+                            "features of %d samples); the matrix form embeds the feature matrix with those columns]"
+                            % (ids, nrows, ds["N"]))
+                if c["fam"] == "P":
+                    why += ("  [family P attaches tapkee's own precomputed_kernel_callback / precomputed_distance_callback / "
+                            "eigen_features_callback objects directly]")
+                if "cont" in c:
+                    why += ("  [the sequence is handed over in a %s: random access, not contiguous]"
+                            % {"deque": "std::deque straddling two blocks",
+                               "stride": "custom iterator over every second slot of an array"}.get(c["cont"], c["cont"]))
                 ctx.violation(replay_obj(ds, c), why)
             elif r["kind"] == "OK" and idx not in refidx:
                 stats["equal_embeddings"] += 1
                 stats["distinct"].add(hashlib.sha1(json.dumps([ds["x"][:6], c["m"], c["fam"], c["order"], c["entry"],
-                                                                c["back"], c["nm"], c["em"]]).encode()).hexdigest())
+                                                                c["back"], c["nm"], c["em"], ids,
+                                                                c.get("cont", "")]).encode()).hexdigest())
         # ---- counters: who was called
         if r["kind"] in ("OK", "EXC") and c["fam"] in ("U", "O", "Y"):
             cnt = r["counts"]
@@ -811,6 +948,8 @@ def shrink_violations(ctx, exe, needs, limit=3):
             break
         if not (isinstance(case, dict) and "data" in case and "run" in case):
             continue
+        if "ids" in case["run"]:
+            continue        # the id sequence names samples of THIS data set
         if "'kind': 'CRASH'" in why:
             continue        # every probe of a hang costs the watchdog time again; the case is small enough as it is
         try:
@@ -947,11 +1086,19 @@ def evaluate(ctx, exe, mexe, needs, datasets, tier, rng, stats, samples):
         params = default_params(rng, ds, variant)
         probe_adapters(ctx, exe, ds, stats)
         cases = []
+        # id sequences of this data set: the flavours rotate over the data sets of a run (two per full data set, one per
+        # reduced one in the quick tier), so that every flavour is run at least once per run whatever the seed
+        nfl = 1 if (tier == "quick" and variant.get("reduced")) else 2
+        seqs = []
+        for t in range(nfl):
+            flavour = IDSEQ_FLAVOURS[(stats["_fl"] + t) % len(IDSEQ_FLAVOURS)]
+            seqs.append((flavour, gen_idseq(rng, ds["N"], flavour)))
+        stats["_fl"] += nfl
         for m in METHODS:
-            cases += cases_for(m, needs.get(m, ""), ds, params, tier, rng, reduced=bool(variant.get("reduced")))
+            cases += cases_for(m, needs.get(m, ""), ds, params, tier, rng, reduced=bool(variant.get("reduced")), seqs=seqs)
         results = run_cases(ctx, exe, ds, cases)
         if any(r["kind"] == "NOTBUILT" for r in results):      # fallback build without the raw eigen family
-            keep = [i for i, r in enumerate(results) if not (r["kind"] == "NOTBUILT" and cases[i]["fam"] in ("E", "X", "O"))]
+            keep = [i for i, r in enumerate(results) if not (r["kind"] == "NOTBUILT" and cases[i]["fam"] in ("E", "X", "O", "P"))]
             cases, results = [cases[i] for i in keep], [results[i] for i in keep]
         model = run_model(ctx, mexe, [(c["m"], c["order"], model_entry(c)) for c in cases]) if mexe else None
         judge(ctx, ds, cases, results, needs, model, stats)
@@ -961,9 +1108,13 @@ def evaluate(ctx, exe, mexe, needs, datasets, tier, rng, stats, samples):
             stats["by_entry"][c["entry"]] = stats["by_entry"].get(c["entry"], 0) + 1
             stats["by_back"][c["back"]] = stats["by_back"].get(c["back"], 0) + 1
             stats["by_order_len"][str(len(c["order"]))] = stats["by_order_len"].get(str(len(c["order"])), 0) + 1
+            stats["by_container"][c.get("cont", "vec")] = stats["by_container"].get(c.get("cont", "vec"), 0) + 1
+            sq = c.get("seq", "0..N-1")
+            stats["by_idseq"][sq] = stats["by_idseq"].get(sq, 0) + 1
         stats["datasets"].append({"kind": ds["kind"], "N": ds["N"], "D": ds["D"], "nm": params["nm"], "em": params["em"],
                                   "k": params["k"], "seed": params["seed"], "permuted_ids": bool(params.get("perm")),
-                                  "library_defaults": bool(params.get("min"))})
+                                  "library_defaults": bool(params.get("min")),
+                                  "id_sequences": {f: ",".join(str(i) for i in q) for f, q in seqs}})
         if len(samples) < 6:
             brief = {"kind": ds["kind"], "N": ds["N"], "D": ds["D"], "x": ds["x"][:6] + ["..."],
                      "ktab": ds.get("ktab", [])[:4] + ["..."], "dtab": ds.get("dtab", [])[:4] + ["..."]}
@@ -975,7 +1126,7 @@ def evaluate(ctx, exe, mexe, needs, datasets, tier, rng, stats, samples):
 def new_stats():
     return {"outcomes": {}, "equal_embeddings": 0, "distinct": set(), "model_agree": 0, "refused": 0,
             "dimension_on_undeclared_features": 0, "callback_calls": 0, "adapter_probe_calls": 0, "by_fam": {}, "by_entry": {}, "by_back": {}, "by_order_len": {},
-            "datasets": []}
+            "by_container": {}, "by_idseq": {}, "_fl": 0, "datasets": []}
 
 
 def run(ctx):
@@ -1138,6 +1289,7 @@ def _run(ctx, restore):
     if ctx.has_violation():
         shrink_violations(ctx, exe, needs)
     distinct = len(stats.pop("distinct"))
+    stats.pop("_fl", None)
     over = []
     if summ is not None:
         for m, d in summ["methods"].items():
@@ -1168,6 +1320,7 @@ def _run(ctx, restore):
         samples=samples,
         histogram={"family": stats["by_fam"], "entry": stats["by_entry"], "backing": stats["by_back"],
                    "attached_callbacks": stats["by_order_len"], "outcomes": stats["outcomes"],
+                   "container": stats["by_container"], "id_sequence": stats["by_idseq"],
                    "datasets": stats["datasets"],
                    "equal_embeddings": stats["equal_embeddings"], "refused_as_documented": stats["refused"],
                    "model_agreements": stats["model_agree"],
